@@ -7,13 +7,18 @@
 //   w3c_edits    a generated valid header + an edit script (near-valid headers), generated
 //                tracestate, generated caller context -> Extract against the reference parser
 //   w3c_bytes    raw traceparent / tracestate bytes (the libFuzzer entry) against the same reference
-//   w3c_helpers  HexToBinary / IsValidHex / SplitString against their documented behaviour
+//   w3c_helpers  HexToBinary / IsValidHex / SplitString against their documented behaviour, and the
+//                public TraceIdFromHex / SpanIdFromHex / TraceFlagsFromHex with hex digits of any length
+// w3c_inject also injects into REUSED carriers (an earlier injection by the same propagator left its
+// headers; see kHoldBack_stale_tracestate); tracestate headers that the W3C grammar reads beyond
+// doubt (OWS around members, empty members) have an independent expectation (ref_state).
 // Oracle: reference encoder and reference parser written from the property statement (three
 // valued: must accept / either / must reject), Inject->Extract and Extract->Inject round trips,
 // `Context::operator==` + span identity for "the caller's context unchanged", ASan/UBSan for the
 // out-of-bounds clause (headers live in exact-size heap buffers without a terminating NUL and are
 // freed before the extracted context is read).
 #include <algorithm>
+#include <clocale>
 #include <cstring>
 #include <memory>
 #include <string>
@@ -40,6 +45,16 @@ namespace nostd   = opentelemetry::nostd;
 namespace detail  = opentelemetry::trace::propagation::detail;
 using trace::propagation::HttpTraceContext;
 using List = std::vector<std::pair<std::string, std::string>>;
+
+// ------------------------------------------------------------------------- findings
+// C09-stale-tracestate (FIXED in /repo 70415bd; regression replay replays/C09/C09-stale-tracestate.json): Inject wrote the tracestate
+// header only when the new trace state is non-empty, so a carrier that still holds the headers of
+// an earlier injection keeps the OLD tracestate next to the NEW traceparent, and extracting those
+// headers yields the new ids with the old (foreign) trace state.  While the shape is held back (or
+// listed as an open finding) the generator re-shapes it - the earlier context gets an empty trace
+// state as well - and counts how often it walked into it.
+const bool kHoldBack_stale_tracestate = false;
+const char kIdStaleTraceState[]       = "C09-stale-tracestate";
 
 // ------------------------------------------------------------------------------------ small utils
 const char kLower[] = "0123456789abcdef";
@@ -247,6 +262,56 @@ void check_state_wellformed(vh::Case &c, const List &l, const char *what)
     VH_CHECK(c, key_valid(kv.first, true), what << ": trace state holds invalid key '" << vh::show(kv.first) << "'");
     VH_CHECK(c, value_valid(kv.second), what << ": trace state holds invalid value '" << vh::show(kv.second) << "'");
   }
+}
+
+// The reading of a tracestate header that the W3C grammar fixes beyond doubt:
+//   list = list-member 0*31( OWS "," OWS list-member ),  list-member = key "=" value / OWS
+// `exact` when every member, after stripping SP / HTAB, is a strictly valid level-1 member, no key
+// occurs twice and members plus empty members are at most 32 (whether empty members count towards
+// the limit, repeated keys and digit-initial keys are C14's either-regions).  Everything else is
+// not decided here (`exact` false): C14 owns the grammar, C09 then only compares with the parser.
+struct RefState
+{
+  bool exact = false;
+  List list;
+  bool padded = false, empties = false;
+};
+RefState ref_state(const std::string &h)
+{
+  RefState r;
+  size_t tokens = 0, i = 0;
+  bool ok = true;
+  while (i <= h.size())
+  {
+    size_t e = h.find(',', i);
+    if (e == std::string::npos)
+      e = h.size();
+    ++tokens;
+    std::string raw = h.substr(i, e - i), m = trim(raw, is_ows);
+    if (m.size() != raw.size())
+      r.padded = true;
+    if (m.empty())
+      r.empties = true;
+    else
+    {
+      size_t eq = m.find('=');
+      if (eq == std::string::npos)
+        ok = false;
+      else
+      {
+        std::string k = m.substr(0, eq), v = m.substr(eq + 1);
+        if (!key_valid(k, false) || !value_valid(v))
+          ok = false;
+        for (auto &kv : r.list)
+          if (kv.first == k)
+            ok = false;
+        r.list.emplace_back(k, v);
+      }
+    }
+    i = e + 1;
+  }
+  r.exact = ok && tokens <= 32;
+  return r;
 }
 
 // ---------------------------------------------------------------------------------- id generators
@@ -584,6 +649,13 @@ struct ExtractIn
 
 void check_extract(vh::Case &c, const ExtractIn &in)
 {
+  // the reference trimming (is_cspace) is isspace() of the "C" locale, which is what a program that
+  // never calls setlocale runs in; under another LC_CTYPE the pads 0x85 / 0xa0 could be blanks
+  static const bool c_locale = [] {
+    const char *l = std::setlocale(LC_CTYPE, nullptr);
+    return l && (std::strcmp(l, "C") == 0 || std::strcmp(l, "POSIX") == 0);
+  }();
+  VH_CHECK(c, c_locale, "harness precondition: LC_CTYPE is not the C locale");
   Ref r = in.tp_present ? ref_parse(in.tp) : reject("absent");
   Caller caller = make_caller(in.caller_kind);
   c.tag(caller.cls);
@@ -602,6 +674,7 @@ void check_extract(vh::Case &c, const ExtractIn &in)
 
   bool installed   = !(out == caller.ctx);
   bool state_empty = true;
+  RefState rs;  // the independent reading of in.ts (filled when a context was installed)
   nostd::shared_ptr<trace::Span> span = trace::GetSpan(out);
   VH_CHECK(c, span.get() != nullptr, "GetSpan(returned context) is null");
   trace::SpanContext sc = span->GetContext();
@@ -643,11 +716,17 @@ void check_extract(vh::Case &c, const ExtractIn &in)
     VH_CHECK(c, sc.trace_state().get() != nullptr, "extracted span context has a null trace state");
     List got = entries(*sc.trace_state());
     check_state_wellformed(c, got, "extracted context");
+    if (in.ts_present && !in.ts_list)
+      rs = ref_state(in.ts);
     if (!in.ts_present)
       VH_CHECK(c, got.empty(), "no tracestate header, yet the extracted trace state is " << show_list(got));
     else if (in.ts_list)
       VH_CHECK(c, got == *in.ts_list, "tracestate '" << vh::show(in.ts.substr(0, 200)) << "' extracted as "
                                                      << show_list(got) << ", expected " << show_list(*in.ts_list));
+    else if (rs.exact)
+      // a W3C-valid header whatever produced it (raw bytes, padded rendering): its members, in order
+      VH_CHECK(c, got == rs.list, "tracestate '" << vh::show(in.ts.substr(0, 200)) << "' is a valid W3C list; extracted as "
+                                                 << show_list(got) << ", expected " << show_list(rs.list));
     else
     {
       // any other bytes: what the tracestate parser itself makes of them (C14 decides whether that
@@ -713,7 +792,19 @@ void check_extract(vh::Case &c, const ExtractIn &in)
     if (!in.ts_present)
       c.tag("ts-absent");
     else if (in.ts_list)
-      c.tag(in.ts_list->size() >= 31 ? "ts-valid-31/32" : "ts-valid");
+    {
+      c.tag(in.ts_list->size() >= 31 ? "ts-valid-31/32" : (in.ts_list->size() >= 4 ? "ts-valid-4..30" : "ts-valid"));
+      if (in.ts != header_of(*in.ts_list))
+        c.tag("ts-valid-padded/empty-members");
+    }
+    else if (rs.exact)
+    {
+      c.tag(rs.list.empty() ? "ts-w3c-valid-memberless" : "ts-w3c-valid(reference-reading)");
+      if (rs.padded && !rs.list.empty())
+        c.tag("ts-w3c-valid-ows-padded");
+      if (rs.empties && !rs.list.empty())
+        c.tag("ts-w3c-valid-empty-members");
+    }
     else
       c.tag(state_empty ? "ts-other-empty-result" : "ts-other-parsed");
   }
@@ -728,8 +819,10 @@ void check_extract(vh::Case &c, const ExtractIn &in)
 // ================================================================================================
 VH_TARGET(w3c_inject, 3,
           "a case is non-trivial when it goes beyond the literals of the unit tests: a flags byte "
-          "other than 00/01, a non-empty trace state, or an invalid context (nothing may be "
-          "injected); distinct = distinct (ids, flags, remote, trace state, carrier/caller shape)")
+          "other than 00/01, a non-empty trace state, a carrier that already holds the headers of an "
+          "earlier injection by the same propagator (the context injected last must come back), or "
+          "an invalid context (nothing may be injected); distinct = distinct (ids, flags, remote, "
+          "trace state, carrier/caller shape, earlier trace state)")
 {
   vh::Reader &rd = c.rd;
   HttpTraceContext prop;
@@ -859,22 +952,106 @@ VH_TARGET(w3c_inject, 3,
   }
   ts = nostd::shared_ptr<trace::TraceState>();
 
+  // ---- the carrier: fresh, or a header map that served an earlier request - the SAME propagator
+  // has already injected another valid context into it (other ids, other flags, its own trace
+  // state).  "Injecting ... and extracting those headers" must give the context injected LAST.
+  // (late draws: an exhausted stream gives the fresh carrier)
+  size_t reuse = rd.weighted({62, 14, 12, 6, 6});
+  List earlier_state;
+  bool earlier_boundary = false;
+  switch (reuse)
+  {
+    case 0:
+      break;
+    case 1:  // the earlier context had no trace state
+      break;
+    case 2:  // foreign members under keys the new state cannot hold
+      earlier_state = {{"old0", "stale"}, {"zz@old", "x y"}};
+      break;
+    case 3:  // generated: the same keys k0, k1, ... as the new state, other values
+      earlier_state = gen_state(rd, 1 + rd.below(3), &earlier_boundary);
+      for (auto &kv : earlier_state)
+        kv.second = "E" + kv.second.substr(0, 200);
+      break;
+    default:  // a full list
+      earlier_state = gen_state(rd, 32, &earlier_boundary);
+      for (auto &kv : earlier_state)
+        kv.second = "E" + kv.second.substr(0, 200);
+      break;
+  }
+  // C09-stale-tracestate (see kHoldBack_stale_tracestate above): the earlier injection left a
+  // tracestate header and the context injected now has an empty trace state
+  if (!earlier_state.empty() && state.empty() &&
+      (kHoldBack_stale_tracestate || vh::excluded(kIdStaleTraceState)))
+  {
+    vh::count_excluded(kIdStaleTraceState);
+    earlier_state.clear();  // re-shaped: the earlier context had no trace state either
+    reuse = 1;
+  }
+  static const char *const kReuseCls[] = {"carrier-fresh", "carrier-reused(earlier-state-empty)",
+                                          "carrier-reused(earlier-state-foreign-keys)",
+                                          "carrier-reused(earlier-state-same-keys)", "carrier-reused(earlier-state-32)"};
+  c.tag(kReuseCls[reuse]);
+  if (reuse)
+  {
+    c.tag(state.empty() ? (earlier_state.empty() ? "reused:empty-after-empty" : "reused:empty-after-state")
+                        : (earlier_state.empty() ? "reused:state-after-empty" : "reused:state-after-state"));
+    c.note("reused-carrier earlier-state(" + std::to_string(earlier_state.size()) + ")=" + show_list(earlier_state) + "\n");
+    c.nontrivial = true;
+  }
+
   std::unique_ptr<Carrier> carrier(new Carrier(null_absent));
   if (extra_header)
     carrier->put("x-other", "keep");
+  if (reuse)
+  {
+    uint8_t ot[16], os[8];
+    for (size_t i = 0; i < 16; ++i)
+      ot[i] = static_cast<uint8_t>(~t.b[i]);
+    for (size_t i = 0; i < 8; ++i)
+      os[i] = static_cast<uint8_t>(~s.b[i]);
+    ot[15] |= 1;  // valid whatever t and s are
+    os[7] |= 1;
+    std::string eh = header_of(earlier_state);
+    trace::SpanContext osc(trace::TraceId(nostd::span<const uint8_t, 16>(ot, 16)),
+                           trace::SpanId(nostd::span<const uint8_t, 8>(os, 8)),
+                           trace::TraceFlags(static_cast<uint8_t>(~flags)), !remote,
+                           earlier_state.empty() ? trace::TraceState::GetDefault() : trace::TraceState::FromHeader(eh));
+    context::Context earlier(trace::kSpanKey, nostd::shared_ptr<trace::Span>(new trace::DefaultSpan(osc)));
+    prop.Inject(*carrier, earlier);
+    std::string e1, e2;
+    const std::string *etp = carrier->find("traceparent", &e1), *ets = carrier->find("tracestate", &e2);
+    uint8_t of = static_cast<uint8_t>(~flags);
+    VH_CHECK(c, etp && *etp == ref_encode(ot, os, of), "the earlier injection wrote traceparent '"
+                                                          << (etp ? vh::show(*etp) : "<absent>") << "', expected '"
+                                                          << ref_encode(ot, os, of) << "'");
+    VH_CHECK(c, earlier_state.empty() ? ets == nullptr : (ets && *ets == eh),
+             "the earlier injection wrote tracestate '" << (ets ? vh::show(ets->substr(0, 200)) : "<absent>")
+                                                        << "', expected '" << vh::show(eh.substr(0, 200)) << "'");
+  }
+  const size_t sets_before = carrier->sets.size();
   prop.Inject(*carrier, ctx);
 
-  // --- what was written
+  // --- what was written (by the injection of the case's context)
   std::string want = ref_encode(t.b, s.b, flags);
   size_t n_tp = 0, n_ts = 0;
-  for (auto &kv : carrier->sets)
+  std::vector<std::string> fields;
+  static_cast<context::propagation::TextMapPropagator &>(prop).Fields([&fields](nostd::string_view f) {
+    fields.emplace_back(f.data(), f.size());
+    return true;
+  });
+  for (size_t i = sets_before; i < carrier->sets.size(); ++i)
   {
+    auto &kv = carrier->sets[i];
     if (kv.first == "traceparent")
       ++n_tp;
     else if (kv.first == "tracestate")
       ++n_ts;
     else
       VH_CHECK(c, false, "Inject wrote an unexpected header '" << vh::show(kv.first) << "'");
+    // text_map_propagator.h: Fields() "Gets the fields set in the carrier by the `inject` method"
+    VH_CHECK(c, std::find(fields.begin(), fields.end(), kv.first) != fields.end(),
+             "Inject wrote the header '" << vh::show(kv.first) << "', which Fields() does not list");
   }
   VH_CHECK(c, n_tp == 1, "Inject of a valid context wrote traceparent " << n_tp << " times");
   std::string tmp, tmp2;
@@ -892,8 +1069,27 @@ VH_TARGET(w3c_inject, 3,
   }
   VH_CHECK(c, *tp == want, "traceparent '" << vh::show(*tp) << "', expected '" << want << "'");
   const std::string *tsh = carrier->find("tracestate", &tmp2);
-  if (state.empty())
+  if (state.empty() && !reuse)
     VH_CHECK(c, n_ts == 0 && tsh == nullptr, "empty trace state, yet tracestate '" << (tsh ? vh::show(*tsh) : "") << "' was written");
+  else if (state.empty())
+  {
+    // a reused carrier: the statement only fixes what the headers must read back as (below).  A
+    // TextMapCarrier has no erase, so a propagator may write nothing (nothing to replace) or
+    // overwrite the old value with a list without members (W3C: "vendors MUST accept empty
+    // tracestate headers") - never with members.
+    auto memberless = [](const std::string &v) {
+      for (char ch : v)
+        if (ch != ',' && ch != ' ' && ch != '\t')
+          return false;
+      return true;
+    };
+    VH_CHECK(c, n_ts <= 1, "empty trace state, tracestate written " << n_ts << " times");
+    for (size_t i = sets_before; i < carrier->sets.size(); ++i)
+      if (carrier->sets[i].first == "tracestate")
+        VH_CHECK(c, memberless(carrier->sets[i].second), "empty trace state, yet tracestate '"
+                                                              << vh::show(carrier->sets[i].second.substr(0, 200)) << "' was written");
+    // whether the carrier now reads back as the new context is decided by the round trip below
+  }
   else
   {
     VH_CHECK(c, n_ts == 1 && tsh != nullptr, "trace state of " << state.size() << " members, tracestate written " << n_ts << " times");
@@ -922,7 +1118,10 @@ VH_TARGET(w3c_inject, 3,
   VH_CHECK(c, got.trace_flags().flags() == flags, "flags byte came back as " << int(got.trace_flags().flags()) << ", injected " << int(flags));
   VH_CHECK(c, got.trace_state().get() != nullptr, "extracted span context has a null trace state");
   List back = entries(*got.trace_state());
-  VH_CHECK(c, back == state, "trace state came back as " << show_list(back) << ", injected " << show_list(state));
+  VH_CHECK(c, back == state, "trace state came back as " << show_list(back) << ", injected " << show_list(state)
+                                                         << (reuse ? " (into a carrier that held the headers of an earlier injection by the same "
+                                                                     "propagator, trace state " + show_list(earlier_state) + ")"
+                                                                   : std::string()));
   if (caller.span)
     VH_CHECK(c, trace::GetSpan(caller.ctx).get() == caller.span.get(), "Extract changed the caller's context object");
   if (caller.has_other)
@@ -974,10 +1173,56 @@ struct GenState
 GenState gen_extract_state(vh::Reader &rd)
 {
   GenState g;
-  switch (rd.weighted({38, 32, 3, 2, 16, 9}))
+  switch (rd.weighted({38, 32, 3, 2, 16, 9, 9, 4}))
   {
     case 0:
       break;
+    case 6:
+    {
+      // a strictly valid list rendered the way the W3C grammar also allows: SP / HTAB around the
+      // members ("OWS , OWS") and empty members in between, in front and behind; members plus
+      // empty members stay within 32
+      bool b;
+      static const char *const kPad[] = {"", " ", "\t", "  ", " \t ", "\t\t"};
+      size_t n     = rd.weighted({3, 1}) == 0 ? 1 + rd.below(3) : 26 + rd.below(6);  // 1..3 or 26..31
+      size_t room  = 32 - n;
+      g.present    = true;
+      g.list       = gen_state(rd, n, &b);
+      g.exact      = true;
+      auto empties = [&](std::string &h) {
+        while (room > 0 && rd.chance(22))
+        {
+          h += std::string(kPad[rd.below(4)]) + ",";
+          --room;
+        }
+      };
+      empties(g.header);
+      for (size_t i = 0; i < n; ++i)
+      {
+        if (i)
+        {
+          g.header += ",";
+          empties(g.header);
+        }
+        g.header += kPad[rd.weighted({3, 2, 2, 1, 1, 1})] + g.list[i].first + "=" + g.list[i].second +
+                    kPad[rd.weighted({3, 2, 2, 1, 1, 1})];
+      }
+      while (room > 0 && rd.chance(22))
+      {
+        g.header += std::string(",") + kPad[rd.below(4)];
+        --room;
+      }
+      break;
+    }
+    case 7:
+    {
+      bool b;
+      g.present = true;
+      g.list    = gen_state(rd, 4 + rd.below(27), &b);
+      g.header  = header_of(g.list);
+      g.exact   = true;
+      break;
+    }
     case 1:
     {
       bool b;
@@ -1120,7 +1365,8 @@ VH_TARGET(w3c_edits, 3,
   // ---- the edit script
   unsigned nedits = static_cast<unsigned>(rd.weighted({38, 34, 18, 10}));
   static const char kEditChars[] = {'0', 'f', 'a', 'F', 'A', '9', 'g', 'G', '/', ':', '@', '`', '-', ' ', '\t',
-                                    '\0', '\x80', '\xff', '+', 'x', '.', '_', '\n', '\r', '\x7f', 'Z'};
+                                    '\0', '\x80', '\xff', '+', 'x', '.', '_', '\n', '\r', '\x7f', 'Z',
+                                    '\xfe' /* the byte w3c_bytes cannot put into a traceparent (its field separator) */};
   std::string script;
   for (unsigned e = 0; e < nedits; ++e)
   {
@@ -1194,6 +1440,13 @@ VH_TARGET(w3c_edits, 3,
   in.ts_present       = gs.present;
   in.ts               = gs.header;
   in.ts_list          = gs.exact ? &gs.list : nullptr;
+  if (gs.exact)
+  {
+    // generator precondition: the rendering reads back (by the reference) as the generated list
+    RefState chk = ref_state(gs.header);
+    VH_CHECK(c, chk.exact && chk.list == gs.list, "harness: rendered tracestate '" << vh::show(gs.header.substr(0, 200))
+                                                                                  << "' does not read back as " << show_list(gs.list));
+  }
 
   c.note("traceparent=" + (in.tp_present ? "'" + vh::show(in.tp) + "'" : std::string("<absent>")) + " tracestate=" +
          (in.ts_present ? "'" + vh::show(in.ts.substr(0, 120)) + "'(" + std::to_string(in.ts.size()) + ")" : std::string("<absent>")) +
@@ -1229,13 +1482,96 @@ VH_TARGET(w3c_bytes, 2,
 
 // ================================================================================================
 VH_TARGET(w3c_helpers, 2,
-          "HexToBinary: non-trivial when the digit string is odd, empty, exactly fills or exceeds "
-          "the buffer; IsValidHex: when the string has at most one non-hex byte; SplitString: when "
-          "the number of separators is within 1 of the word limit; distinct = distinct call text")
+          "HexToBinary and the public TraceIdFromHex / SpanIdFromHex / TraceFlagsFromHex: non-trivial "
+          "when the digit string is odd, empty, exactly fills or exceeds the buffer / id size; "
+          "IsValidHex: when the string has at most one non-hex byte; SplitString: when the number "
+          "of separators is within 1 of the word limit; distinct = distinct call text")
 {
   vh::Reader &rd = c.rd;
-  switch (rd.weighted({4, 3, 4}))
+  switch (rd.weighted({4, 3, 4, 3}))
   {
+    case 3:
+    {
+      // the public static entry points HttpTraceContext::TraceIdFromHex / SpanIdFromHex /
+      // TraceFlagsFromHex, called directly with hex digits of ANY length (every caller in the
+      // repository validates with IsValidHex first, so non-hex bytes are outside their contract and
+      // are not generated)
+      unsigned which = rd.below(3);
+      size_t bs      = which == 0 ? 16 : (which == 1 ? 8 : 1);
+      size_t len     = 0;
+      switch (rd.weighted({3, 2, 2, 2, 2, 1}))
+      {
+        case 0:
+          len = rd.below(static_cast<uint32_t>(2 * bs + 1));
+          break;
+        case 1:
+          len = 2 * bs;
+          break;
+        case 2:
+          len = 2 * bs - 1;
+          break;
+        case 3:
+          len = 2 * bs + 1 + rd.below(3);
+          break;
+        case 4:
+          len = 2 * bs + 1 + rd.below(60);
+          break;
+        default:
+          len = 0;
+          break;
+      }
+      static const char digits[] = "0123456789abcdefABCDEF";
+      std::string hex;
+      bool zero_digits = rd.chance(10);  // all '0': the result must be the invalid id
+      for (size_t i = 0; i < len; ++i)
+        hex.push_back(zero_digits ? '0' : digits[rd.below(22)]);
+      static const char *const names[] = {"TraceIdFromHex", "SpanIdFromHex", "TraceFlagsFromHex"};
+      c.note(std::string(names[which]) + "('" + hex + "')\n");
+      c.tag(std::string("fromhex-") + (len > 2 * bs ? "too-long" : (len == 2 * bs ? "exact" : (len == 0 ? "empty" : (len % 2 ? "odd" : "shorter")))));
+      c.nontrivial = len > 2 * bs || len % 2 || len == 2 * bs || len == 0;
+      std::unique_ptr<char[]> src(new char[len]);
+      std::memcpy(src.get(), hex.data(), len);
+      nostd::string_view view(src.get(), len);
+      uint8_t got[16] = {0};
+      if (which == 0)
+      {
+        trace::TraceId id = HttpTraceContext::TraceIdFromHex(view);
+        std::memcpy(got, id.Id().data(), 16);
+        VH_CHECK(c, id.IsValid() == !all_zero(got, 16), "TraceId::IsValid() disagrees with the id bytes " << hex_of(got, 16));
+      }
+      else if (which == 1)
+      {
+        trace::SpanId id = HttpTraceContext::SpanIdFromHex(view);
+        std::memcpy(got, id.Id().data(), 8);
+        VH_CHECK(c, id.IsValid() == !all_zero(got, 8), "SpanId::IsValid() disagrees with the id bytes " << hex_of(got, 8));
+      }
+      else
+        got[0] = HttpTraceContext::TraceFlagsFromHex(view).flags();
+      std::memset(src.get(), 0xdd, len);
+      auto decode = [bs](const std::string &d) {  // exactly 2*bs digits
+        std::vector<uint8_t> v(bs);
+        for (size_t i = 0; i < bs; ++i)
+          v[i] = static_cast<uint8_t>(hexval(static_cast<unsigned char>(d[2 * i])) * 16 + hexval(static_cast<unsigned char>(d[2 * i + 1])));
+        return v;
+      };
+      if (len <= 2 * bs)
+      {
+        // hex.h: "Smaller hex strings are left padded with zeroes"
+        std::vector<uint8_t> want = decode(std::string(2 * bs - len, '0') + hex);
+        VH_CHECK(c, std::memcmp(want.data(), got, bs) == 0, names[which] << "('" << hex << "') gave " << hex_of(got, bs)
+                                                                          << ", expected " << hex_of(want.data(), bs));
+      }
+      else
+      {
+        // does not fit: the invalid (all-zero) value, or a truncation to the leading / trailing
+        // digits - never bytes that are not in the input (an unwritten buffer)
+        std::vector<uint8_t> head = decode(hex.substr(0, 2 * bs)), tail = decode(hex.substr(len - 2 * bs));
+        VH_CHECK(c, all_zero(got, bs) || std::memcmp(head.data(), got, bs) == 0 || std::memcmp(tail.data(), got, bs) == 0,
+                 names[which] << "('" << hex << "') (" << len << " digits for " << bs << " bytes) gave " << hex_of(got, bs)
+                              << ", which is neither the invalid value nor a truncation of the input");
+      }
+      break;
+    }
     case 0:
     {
       static const size_t sizes[] = {1, 8, 16, 2, 3, 5};
